@@ -139,6 +139,18 @@ pub struct Stats {
 struct FdInfo {
     path: String,
     is_dir: bool,
+    /// (device, inode) of the file when it was opened: fd numbers are reused, and not every
+    /// close goes through the interposed `close` (closedir, for one)
+    ino: (u64, u64),
+}
+
+fn ino_of(fd: c_int) -> Option<(u64, u64)> {
+    let mut sb: libc::stat = unsafe { std::mem::zeroed() };
+    if unsafe { libc::fstat(fd, &mut sb) } == 0 {
+        Some((sb.st_dev as u64, sb.st_ino as u64))
+    } else {
+        None
+    }
 }
 
 pub struct State {
@@ -284,6 +296,16 @@ pub fn take_trace() -> Vec<(u64, Class, String)> {
 }
 
 impl State {
+    /// Look up an fd, dropping the entry if the fd number now refers to another file.
+    fn fd(&mut self, fd: c_int) -> Option<(String, bool)> {
+        let info = self.fds.get(&fd)?;
+        if ino_of(fd) != Some(info.ino) {
+            self.fds.remove(&fd);
+            return None;
+        }
+        Some((info.path.clone(), info.is_dir))
+    }
+
     fn rel(&self, abs: &[u8]) -> Option<String> {
         if abs.len() >= self.root.len() && abs[..self.root.len()] == self.root[..] {
             let rest = &abs[self.root.len()..];
@@ -499,13 +521,30 @@ unsafe fn do_open(
                     _ => {}
                 }
             }
-            st.fds.insert(fd, FdInfo { path: rel, is_dir });
+            st.fds.insert(
+                fd,
+                FdInfo {
+                    path: rel,
+                    is_dir,
+                    ino: ino_of(fd).unwrap_or((0, 0)),
+                },
+            );
         }
         Some(fd)
     });
     match r {
         Some(fd) => fd,
-        None => call_real(),
+        None => {
+            let fd = call_real();
+            if fd >= 0 {
+                // an unrelated open: forget a stale entry for the reused fd number
+                hooked(|st| {
+                    st.fds.remove(&fd);
+                    None::<()>
+                });
+            }
+            fd
+        }
     }
 }
 
@@ -561,7 +600,7 @@ pub unsafe extern "C" fn close(fd: c_int) -> c_int {
 pub unsafe extern "C" fn write(fd: c_int, buf: *const c_void, n: size_t) -> ssize_t {
     let real = real!("write", unsafe extern "C" fn(c_int, *const c_void, size_t) -> ssize_t);
     let r = hooked(|st| {
-        let path = st.fds.get(&fd)?.path.clone();
+        let path = st.fd(fd)?.0;
         let (call, fault) = st.begin_call(Class::Write, &path);
         let mut len = n;
         match fault {
@@ -601,7 +640,7 @@ unsafe fn do_pwrite(
     real: unsafe extern "C" fn(c_int, *const c_void, size_t, off_t) -> ssize_t,
 ) -> ssize_t {
     let r = hooked(|st| {
-        let path = st.fds.get(&fd)?.path.clone();
+        let path = st.fd(fd)?.0;
         let (call, fault) = st.begin_call(Class::Write, &path);
         let mut len = n;
         match fault {
@@ -657,7 +696,7 @@ pub unsafe extern "C" fn writev(fd: c_int, iov: *const libc::iovec, cnt: c_int) 
         unsafe extern "C" fn(c_int, *const libc::iovec, c_int) -> ssize_t
     );
     let r = hooked(|st| {
-        let path = st.fds.get(&fd)?.path.clone();
+        let path = st.fd(fd)?.0;
         let (call, fault) = st.begin_call(Class::Write, &path);
         match fault {
             Some(FaultKind::Short) | None => {}
@@ -705,7 +744,7 @@ unsafe fn do_ftruncate(
     real: unsafe extern "C" fn(c_int, off_t) -> c_int,
 ) -> c_int {
     let r = hooked(|st| {
-        let path = st.fds.get(&fd)?.path.clone();
+        let path = st.fd(fd)?.0;
         let (call, fault) = st.begin_call(Class::Write, &path);
         if let Some(k) = fault {
             if k != FaultKind::Short {
@@ -749,8 +788,7 @@ pub unsafe extern "C" fn ftruncate(fd: c_int, len: off_t) -> c_int {
 
 unsafe fn do_sync(fd: c_int, real: unsafe extern "C" fn(c_int) -> c_int) -> c_int {
     let r = hooked(|st| {
-        let info = st.fds.get(&fd)?;
-        let (path, is_dir) = (info.path.clone(), info.is_dir);
+        let (path, is_dir) = st.fd(fd)?;
         let (call, fault) = st.begin_call(Class::Sync, &path);
         if let Some(k) = fault {
             set_errno(errno_of(k));
@@ -900,11 +938,10 @@ pub unsafe extern "C" fn rmdir(path: *const c_char) -> c_int {
 pub unsafe extern "C" fn read(fd: c_int, buf: *mut c_void, n: size_t) -> ssize_t {
     let real = real!("read", unsafe extern "C" fn(c_int, *mut c_void, size_t) -> ssize_t);
     let r = hooked(|st| {
-        let info = st.fds.get(&fd)?;
-        if info.is_dir {
+        let (path, is_dir) = st.fd(fd)?;
+        if is_dir {
             return None;
         }
-        let path = info.path.clone();
         let (_call, fault) = st.begin_call(Class::Read, &path);
         let mut len = n;
         match fault {
@@ -932,7 +969,7 @@ unsafe fn do_pread(
     real: unsafe extern "C" fn(c_int, *mut c_void, size_t, off_t) -> ssize_t,
 ) -> ssize_t {
     let r = hooked(|st| {
-        let path = st.fds.get(&fd)?.path.clone();
+        let path = st.fd(fd)?.0;
         let (_call, fault) = st.begin_call(Class::Read, &path);
         let mut len = n;
         match fault {
